@@ -32,8 +32,14 @@ def run(chk):
         level = rng.below(2)
         ds = [rng.choice(contents)[1] for _ in range(rng.range(2, 4))]
         ds = [d if len(d) < 150000 else d[:150000] for d in ds]
-        cases.append({'kind': 'reuse', 'level': level, 'frag': 0, 'datas': ds})
-        lines.append('renc_multi %d %d %s' % (level, rng.choice([0, 0, 13, 4096]), ' '.join(hexs(d) for d in ds)))
+        # a third of the histories change source and drain only in place (source_mut / drain_mut) and call compress()
+        # once more on the exhausted source, which must give a valid frame holding no data
+        if rng.below(3) == 0:
+            cases.append({'kind': 'reuse-in-place', 'level': level, 'frag': 0, 'datas': ds + [b'']})
+            lines.append('renc_multi_mut %d %d %s' % (level, rng.choice([0, 0, 13, 4096]), ' '.join(hexs(d) for d in ds)))
+        else:
+            cases.append({'kind': 'reuse', 'level': level, 'frag': 0, 'datas': ds})
+            lines.append('renc_multi %d %d %s' % (level, rng.choice([0, 0, 13, 4096]), ' '.join(hexs(d) for d in ds)))
     res = zh_par('codec', lines)
     items, mlines, mexp = [], [], []
     for c, ln, r in zip(cases, lines, res):
@@ -84,12 +90,37 @@ def run(chk):
             chk.tie_broken('model:raw-literal-block', 'a real compressed block does not meet the side conditions of the block theorem (%s, %d bytes)' % (l, len(b)))
             break
         nrb += 1
+    # ... and from the data: for small single-block inputs whose block has raw literals, the match finder model's report,
+    # split as compress_block splits it, written by the block model, must be the real block (this is the chain of
+    # C02_fastest_block_step_with_raw_literals executed end to end)
+    fb = []
+    for f, d, l, ln in items:
+        # (frames of a reused compressor are left out: the recycled suffix stores have other capacities than a fresh
+        # match finder's, so a fresh model legitimately finds other matches)
+        if 0 < len(d) <= 6000 and 'level 1' in l and not l.startswith('reuse'):
+            w = framegen.walk_blocks(f)
+            if w and len(w[1]) == 1 and w[1][0][2] == 2 and (f[w[1][0][0] + 3] & 3) == 0:
+                p, last, ty, size, body = w[1][0]
+                fb.append((d, f[p + 3:p + 3 + body], l))
+    fb = fb[:80 if thorough else 30]
+    fr = model_run('fastblock', ['131072 %s %s' % (hexs(d), hexs(b)) for d, b, l in fb], timeout=1500)
+    nfb = 0
+    for (d, b, l), r in zip(fb, fr):
+        w = (r or 'missing').split()
+        if len(w) < 3 or w[0] != 'ok' or w[2] != hexs(b):
+            chk.tie_broken('correspondence:fastest-block', 'match finder model + block model do not reproduce the real first block (%s, %d input bytes): model %s real %s' % (
+                l, len(d), (r or '')[:80], hexs(b)[:80]))
+            break
+        if w[1] != '1':
+            chk.tie_broken('model:fastest-block', 'a real first block does not meet the side conditions of the block theorem (%s, %d input bytes)' % (l, len(d)))
+            break
+        nfb += 1
     kinds = {}
     for c in cases:
         kinds[c['kind'].split('-')[0] if c['kind'].startswith('gen') else c['kind']] = kinds.get(c['kind'], 0) + 1
     chk.add_samples('roundtrip', len(items), len(set(f for f, d, l, ln in items)), [{'kind': cases[0]['kind'], 'command': lines[0][:120]}, {'kind': cases[-1]['kind'], 'command': lines[-1][:120]}],
                     rule='path-directed inputs (empty, 1 byte, 128 KiB -1/0/+1, two blocks, runs, treeless reuse, raw block between similar blocks, literal counts 1023..1026 and 16383..16385, wide / two-symbol alphabets, long matches and literal runs, far-end-of-window match, block-boundary straddle) and generated contents x {Uncompressed, Fastest} x reader fragment sizes {whole, 1, 7, 1000, 65536, 131071}; 2-4 frames through one reused compressor')
-    chk.cov['components']['roundtrip'].update({'frames_model_vs_real': len(mlines), 'raw_literal_blocks_rewritten_identically_with_side_conditions': nrb, 'block_types': block_type_histogram([f for f, d, l, ln in items])})
+    chk.cov['components']['roundtrip'].update({'frames_model_vs_real': len(mlines), 'raw_literal_blocks_rewritten_identically_with_side_conditions': nrb, 'first_blocks_reproduced_from_data_by_matcher_and_block_models': nfb, 'block_types': block_type_histogram([f for f, d, l, ln in items])})
 
 
 def block_type_histogram(frames):
